@@ -38,7 +38,15 @@ class _Rewrite(ast.NodeTransformer):
                 node)
         return node
 
-    _METHODS = {"startswith", "endswith", "find", "index", "count", "split", "replace", "partition", "strip", "lstrip", "rstrip", "join"}
+    _METHODS = {"startswith", "endswith", "find", "index", "count", "split", "replace", "partition", "strip", "lstrip", "rstrip", "join", "get"}
+
+    def visit_Subscript(self, node):
+        self.generic_visit(node)
+        if isinstance(node.ctx, ast.Load) and not isinstance(node.slice, (ast.Slice, ast.Tuple, ast.Constant)):
+            # a computed subscript may be a symbolic int meeting a concrete dict / list / tuple / bytes (table-driven code)
+            return ast.copy_location(
+                ast.Call(func=ast.Name(id="sx_sub_", ctx=ast.Load()), args=[node.value, node.slice], keywords=[]), node)
+        return node
 
     def visit_Compare(self, node):
         self.generic_visit(node)
@@ -106,6 +114,7 @@ class Loader(importlib.machinery.SourceFileLoader):
         g["sx_seen_"] = seen_shim
         g["sx_in_"] = strs.in_shim
         g["sx_m_"] = strs.method_shim
+        g["sx_sub_"] = shims.sub_shim
         super().exec_module(module)
         install(module)
 
@@ -159,6 +168,8 @@ SHIM_LIST = [
     "every except-handler first re-raises engine control exceptions (AST rewrite)",
     "`x in y` / `x not in y` and str/bytes method calls (startswith, endswith, find, split, replace, ...) dispatch through helpers that lift a "
     "concrete receiver when an argument is a proxy (AST rewrite; identical to the native operation when no proxy is involved)",
+    "computed subscripts `a[i]`, `d.get(k)` and `k in {set/dict}` with a symbolic int key on a concrete dict / list / tuple / bytes: one fork per dict "
+    "key, an ITE mux for tables of small ints, one fork per position otherwise (AST rewrite; native operation when the key is concrete)",
 ]
 
 _active = False
